@@ -96,6 +96,14 @@ def _mech(m, pos):
             d['genexp'] = True
             break
         n = n.parent
+    # inside the element/condition part of any comprehension (list, set, dict, generator) up to the scope?
+    n = leaf if leaf.type != 'operator' else leaf.parent
+    d['in_comprehension'] = False
+    while n is not None and n is not scope:
+        if n.type in ('testlist_comp', 'dictorsetmaker', 'argument') and any(c.type in ('comp_for', 'sync_comp_for') for c in n.children):
+            d['in_comprehension'] = True
+            break
+        n = n.parent
     # dead code: inside an if/while branch that a constant test rules out
     def const(t):
         """truth value of a test made only of literals and operators (what a constant folder can decide), else None"""
